@@ -1,7 +1,7 @@
 """C11: specs/KeyDerivation.tla bound to pkg/secretstore (device_keystore_wrapper.go, keys_utils.go, secret_store.go)."""
 import json, os
 import vf
-from ratchetstore import _par, _split_keep_reset
+from ratchetstore import _par, _split_keep_reset, _selftest
 
 PKG = "pkg/secretstore"
 FILES = ["vf_world_verif_test.go", "vf_crashds_verif_test.go", "vf_crash_verif_test.go", "vf_keyderiv_verif_test.go"]
@@ -134,6 +134,17 @@ def run(ctx, replay=None):
     if {b for b, _ in blocks} != set(byid):
         raise vf.Infra("driver did not record every script")
     blocks.sort(key=lambda b: b[0])
+    if not replay:
+        def corrupt11(b):
+            hit = False
+            for e in b:
+                if e.get("ev") == "contact" and not hit:
+                    e["grp"] = 999999
+                    hit = True
+            return b if hit else None
+        cand = [evs for b, evs in blocks if byid[b]["cfg"]["mode"] == "pairs"]
+        if cand:
+            _selftest(ctx, MON, "c11_asymmetric_group", cand[0], corrupt11)
     nchunk = 3 if ctx.tier == "quick" else 6
     chunks = [blocks[i::nchunk] for i in range(nchunk)]
     for rejects in _par([(lambda i=i, c=c: _validate(ctx, c, "c11_%d" % i)) for i, c in enumerate(chunks) if c], 3):
